@@ -4,7 +4,8 @@ from __future__ import annotations
 import itertools
 from fractions import Fraction
 
-from ..core import Prop, Violation, import_repo, show_bool, show_rat
+from ..core import LEAN, REPO, Prop, Violation, import_repo, show_bool, show_rat, write_if_changed
+from ..extract import e_cascade
 
 CP = ["none", "pass", "reject", "raise", "odd", "raise0", "lt50"]
 PR = ["ok", "raise", "raise0"]
@@ -32,12 +33,19 @@ class C19(Prop):
         "amplification factors used by the correspondence are dyadic rationals, on which float arithmetic is exact",
         "on_stage_complete / on_cascade_complete callbacks, statistics, timing fields and run_parallel are not modelled",
     ]
-    trusted_modelled = ["modelled, not verified: Cascade.run's loop body as Operon.Cascade.stageStep/runFrom"]
+    trusted_modelled = ["extractor E-cascade: the real Cascade.run evaluated on all 1- and (required) 2-stage pipelines over the "
+                        "behaviour alphabet, regenerated each run into Operon/Gen/CascadeTable.lean (c19_stage_table_agrees)",
+                        "modelled, not verified: Cascade.run's loop as Operon.Cascade.stageStep/runFrom beyond that table"]
 
     def setup(self, ctx):
         import_repo()
         from operon_ai.topology import cascade as m
         self.m = m
+
+    def extract(self, ctx):
+        rows = e_cascade.evaluate(REPO)
+        changed = write_if_changed(LEAN / "Operon/Gen/CascadeTable.lean", e_cascade.render(rows))
+        return [{"id": "E-cascade", "rows": None if rows is None else len(rows), "facts_changed": changed}]
 
     # --- generation --------------------------------------------------------------------------------------
     def _case(self, halt, maxa, stages, x, note=""):
